@@ -54,3 +54,12 @@ LEVEL_TEXT = {
 LEVEL_NOTE = {}
 TECH_EXTRA = {}
 NOT_APPLICABLE = {}
+
+# ----------------------------------------------------------------------------------------------- prototypes (to be enriched)
+S('ep_basic', 'epoch/ep1.cpp', {'assert': 'C09'}, models={'quick': ['sc', 'tso', 'arm'], 'thorough': ['sc', 'tso', 'arm']})
+S('fu_basic', 'future/fu1.cpp', {'assert': 'C08', 'stuck': 'C08'})
+S('id_basic', 'idalloc/id2.cpp', {'assert': 'C14'})
+S('rl_basic', 'vector/rl1.cpp', {'assert': 'C04'})
+S('ht_same_key', 'hashtable/ht1.cpp', {'assert': 'C03'})
+S('ht_find', 'hashtable/ht2.cpp', {'assert': 'C03'})
+S('le_basic', 'logging/le3.cpp', {'assert': 'C20'}, extra=['babylon/logging/log_entry.cpp', 'babylon/reusable/page_allocator.cpp'], models=['sc'], bound=200)
